@@ -10,6 +10,7 @@ From Coq Require Import ZArith List Bool.
 From BT Require Import Model.RTree Model.TreeSpec Model.Check Model.CheckTree
                        Model.Persist Model.PersistSpec Proofs.StoreProofs Proofs.PersistProofs.
 From BT Require Import Model.TreeRun Model.PersistWorld Proofs.RunSyncProofs.
+From BT Require Import Model.Chain Model.ChainRun Proofs.ChainProofs Proofs.ChainRunProofs Proofs.ChainStateProofs.
 Import ListNotations.
 Open Scope Z_scope.
 
@@ -127,3 +128,30 @@ Theorem C04_refuted :
 Proof. exact PersistProofs.commit_reload_refuted. Qed.
 Print Assumptions C04_refuted.
 Print Assumptions C04_run_partial.
+
+(* The state an object pickles contains its `next` / `firstbucket` FIELDS;
+   Persist.getstate above computes them from the tree (successor in the
+   in-order leaf sequence, first leaf below the node).  Model/Chain.v holds the
+   fields in a heap written by the code's own pointer assignments, and
+   Chain.pgetstate reads them.  On every heap that realises the tree the two
+   agree for every object ... *)
+Theorem C04_getstate_reads_pointers : forall (V : Type) (ml mi : nat),
+  (1 <= ml)%nat -> (2 <= mi)%nat ->
+  forall (t : tree V) (h : heap) (stored : list nat),
+  Inv V ml mi t -> NoDup (ids V t) -> chain_ok V h t ->
+  forall i n, find_node V t i = Some n -> pgetstate V h stored n = getstate V stored t n.
+Proof. exact ChainStateProofs.getstate_reads_pointers. Qed.
+Print Assumptions C04_getstate_reads_pointers.
+
+(* ... and after EVERY history of public calls the heap does realise the tree
+   (C03_chain_calls), so the footprint / commit / reader theorems above are
+   about the states the code actually writes *)
+Theorem C04_getstate_after_any_history : forall (vs ir : bool) (ml mi : nat),
+  (1 <= ml)%nat -> (2 <= mi)%nat ->
+  forall (calls : list call) (stored : list nat),
+  let sp := api_run vs ir ml mi calls in
+  let t := t_tree (fst (run vs ir ml mi init calls)) in
+  forall i n, find_node Z t i = Some n ->
+    pgetstate Z (p_heap (snd sp)) stored n = getstate Z stored t n.
+Proof. exact ChainStateProofs.getstate_after_history. Qed.
+Print Assumptions C04_getstate_after_any_history.
